@@ -11,12 +11,13 @@ git -C /repo worktree add -q --detach "$WT" HEAD || exit 2
 trap 'git -C /repo worktree remove --force "$WT" >/dev/null 2>&1' EXIT
 cp "$SRC/$DEMO" "$WT/$DEST/"
 cd "$WT"
-base="$($GO test -vet=off -count=1 -run "$RUN" "$PKG" 2>&1 | tail -3)"; echo "$base" | grep -q '^ok' && b=pass || b=fail
+F="${CONFIRM_TESTFLAGS:-}"
+base="$($GO test $F -vet=off -count=1 -run "$RUN" "$PKG" 2>&1 | tail -3)"; echo "$base" | grep -q '^ok' && b=pass || b=fail
 git apply "$SRC/patch.diff" || { echo "{\"id\":\"$ID\",\"error\":\"patch does not apply\"}"; exit 1; }
 $GO build ./... >/dev/null 2>&1 && bld=ok || bld=fail
 rm -f "$DEST/$DEMO"
 suite="$($GO test -vet=off -count=1 "$PKG" 2>&1 | tail -3)"; echo "$suite" | grep -q '^ok' && s=pass || s=fail
 cp "$SRC/$DEMO" "$WT/$DEST/"
-with="$($GO test -vet=off -count=1 -run "$RUN" "$PKG" 2>&1 | tail -15)"; echo "$with" | grep -q '^ok' && w=pass || w=fail
+with="$($GO test $F -vet=off -count=1 -run "$RUN" "$PKG" 2>&1 | tail -15)"; echo "$with" | grep -q '^ok' && w=pass || w=fail
 echo "{\"id\":\"$ID\",\"demo_without_change\":\"$b\",\"build_with_change\":\"$bld\",\"existing_tests_with_change\":\"$s\",\"demo_with_change\":\"$w\"}"
 [ "$b" = pass ] && [ "$bld" = ok ] && [ "$s" = pass ] && [ "$w" = fail ]
